@@ -520,6 +520,10 @@ def write_evidence(args, cfg, acc, t0, violations=0, clause_counts=None):
             "faults_fired": acc.fired, "fault_positions": acc.fault_at, "probes": acc.notes, "seam_stats": acc.stats,
             "clause_violations": clause_counts or {}, "known_finding_hits": acc.known_hits, "other_property_clause_hits": acc.foreign,
             "runs_with_invalid_generated_input": acc.invalid, "components": COMPONENTS, "exhaustive": False,
+            "crash_point_enumeration": ({"swept_histories": acc.notes.get("sweep_histories", 0), "crash_points_enumerated": acc.notes.get("sweep_crash_points", 0),
+                                         "note": "for every swept history each scheduling step of the attacked session is a crash point that was executed (kill or interrupt), incl. the recovery session in depth-2 sweeps; histories themselves are sampled"}
+                                        if args.prop == "C17" else None),
+            "process_images": "reference, every phase and the loader run in process images of their own; phases in knobs.alt_phases run under another PYTHONHASHSEED (probe phase_in_other_interpreter)",
         },
         "assumptions": [
             "scheduling points are the lock, file, pool-task and evaluate entry/exit operations (plus source lines of panoptica_aggregator.py in a subset of runs); code between two points is atomic",
